@@ -6,6 +6,7 @@ import (
 	"fmt"
 	"go/token"
 	"go/types"
+	"os"
 	"sort"
 	"strings"
 
@@ -237,6 +238,46 @@ func (x *X) applyContract(s *State, callee *ssa.Function, ct *Contract, args []V
 	// havoc what the callee may modify
 	for _, m := range ct.Modifies {
 		x.havocTarget(s, m, am, "c."+callee.Name())
+	}
+	// the bookkeeping ghosts that checkFrame exempts (the effect log itself) move with every callee that has effects:
+	// the clock only advances, HookOK / ExternOK only fall, the recorded hook arguments and the event count are whatever
+	// the callee's postconditions say. (Leaving them untouched made "hookT > old(Clock) && hookT <= Clock" contradictory
+	// at call sites and every later obligation on the hooks != nil paths vacuous.)
+	if len(ct.Modifies) > 0 && os.Getenv("GOVC_SELFTEST_NO_BOOKKEEPING_HAVOC") == "" { // the switch exists for the engine selftest only (it re-creates the vacuity hole)
+		mods := map[string]bool{}
+		for _, m := range ct.Modifies {
+			mods[m] = true
+		}
+		oldClock := tm(s.ghost["Clock"])
+		if !mods["Clock"] {
+			x.havocTarget(s, "Clock", am, "c."+callee.Name())
+		}
+		s.assume(sApp(">=", tm(s.ghost["Clock"]), oldClock))
+		for _, g := range []string{"HookOK", "ExternOK"} {
+			if mods[g] {
+				continue
+			}
+			// only callees that can reach a listener (a bank or store failure) can lower the respective flag
+			if g == "HookOK" && !(mods["HookN"] || mods["HookT"]) {
+				continue
+			}
+			if g == "ExternOK" && !(mods["Bal"] || mods["XferN"] || mods["XferT"] || mods["Pool"] || mods["SetT"]) {
+				continue
+			}
+			o := tm(s.ghost[g])
+			x.havocTarget(s, g, am, "c."+callee.Name())
+			s.assume(sImp(tm(s.ghost[g]), o))
+		}
+		if (mods["HookN"] || mods["HookT"]) && !mods["HookArgs"] {
+			x.havocTarget(s, "HookArgs", am, "c."+callee.Name())
+		}
+		if !mods["EventN"] {
+			if _, ok := s.ghost["EventN"]; ok {
+				oe := tm(s.ghost["EventN"])
+				x.havocTarget(s, "EventN", am, "c."+callee.Name())
+				_ = oe
+			}
+		}
 	}
 	// results
 	var res []Val
